@@ -142,3 +142,52 @@ func concDrive(t *testing.T, prop string, mode string) {
 
 func TestC06Concurrent(t *testing.T) { concDrive(t, "C06conc", "drop") }
 func TestC07Concurrent(t *testing.T) { concDrive(t, "C07conc", "saturated") }
+
+// ---------------- C16 under concurrency: the last value delivered to a listener equals EstimatedLimit() once the samples are in ----------------
+func TestC16Concurrent(t *testing.T) {
+	rep := NewReport("C16conc")
+	defer rep.Write(t)
+	root := NewRng(Seed())
+	iters := Scale(1500, 30000)
+	deadline := time.Now().Add(time.Duration(Scale(20, 240)) * time.Second)
+	for it := 0; it < iters && time.Now().Before(deadline); it++ {
+		r := root.Fork()
+		kd := concKinds[r.Intn(len(concKinds))]
+		initial := int(r.Pick(10, 20, 57, 100))
+		g, per := int(r.Pick(2, 4, 8)), int(r.Pick(1, 2, 3))
+		rtt := r.Pick(1_000_000, 5_000_000)
+		lim := kd.mk(initial, core.EmptyMetricRegistryInstance)
+		lim.OnSample(0, rtt, 10000, false) // establishes the baseline
+		var mu sync.Mutex
+		last, calls := -1, 0
+		lim.NotifyOnChange(func(v int) {
+			runtime.Gosched() // a slow consumer
+			mu.Lock()
+			last, calls = v, calls+1
+			mu.Unlock()
+		})
+		var wg sync.WaitGroup
+		start := make(chan struct{})
+		for i := 0; i < g; i++ {
+			wg.Add(1)
+			go func(i int) {
+				defer wg.Done()
+				<-start
+				for j := 0; j < per; j++ {
+					lim.OnSample(0, rtt, 10000, (i+j)%3 == 2) // saturated growth mixed with drops: the estimate moves on every sample
+				}
+			}(i)
+		}
+		close(start)
+		wg.Wait()
+		rep.Evaluations++
+		rep.Distinct("concurrent-notify", fmt.Sprint(kd.name, initial, g, per))
+		mu.Lock()
+		l, n := last, calls
+		mu.Unlock()
+		if est := lim.EstimatedLimit(); n > 0 && l != est {
+			rep.Violate(kd.name+":concurrent-stale-notification", fmt.Sprintf("after %d goroutines x %d samples the last value delivered to the listener is %d, EstimatedLimit() is %d", g, per, l, est),
+				map[string]interface{}{"component": "limit-concurrent", "algorithm": kd.name, "initial": initial, "goroutines": g, "per_goroutine": per})
+		}
+	}
+}
